@@ -30,8 +30,7 @@ _FUNCS = ("only_directed", "only_undirected", "skeleton", "undirected_edges", "d
           "moral_graph", "induced_subgraph", "is_clique", "is_complete", "degrees")
 REQUIRED_FUNCS = ["sempler/utils.py:" + f for f in _FUNCS]
 REQUIRED_COUNTERS = {t: dict([("contract:%s:evaluated-direct" % f, 200) for f in _FUNCS]
-                             + [("contract:only_directed:evaluated-internal", 100), ("contract:skeleton:evaluated-internal", 100),
-                                ("contract:vstructures:evaluated-internal", 100), ("shielded-by-undirected-collider", 20)])
+                             + [("shielded-by-undirected-collider", 20)])     # evaluations on the library's internal calls are evidence only
                      for t in ("quick", "thorough")}
 N = {"quick": {"random": 2500, "weighted": 4000, "internal_rate": 3}, "thorough": {"random": 200000, "weighted": 300000, "internal_rate": 1}}
 
